@@ -165,6 +165,11 @@ def gen_permodel_scenario(rng):
         key = (order[j], k_nested(j))
         if key not in d.script:
             d.script[key] = (inner, out)
+        # the only way a nested session can RAISE while the enclosing event survives: the exception escapes the nested
+        # event because its on_exception handler raises itself (first invocation), and the enclosing event's handler
+        # (second invocation) returns — the enclosing session must then go on with ITS pending events
+        if d.on_exception and out[0] == 'raise' and rng.random() < 0.6:
+            d.script[(d.on_exception[0], 0)] = ((), ('raise', 3, 1))
     d.history = [T(0, 0)] + [T(rng.randrange(len(d.models)), rng.choice((0, 1))) for _ in range(rng.randint(0, 3))]
     return d
 
@@ -183,13 +188,34 @@ def gen_async_monitor(rng):
     return d
 
 
-def async_monitor_judge(d):
+def async_monitor_judge(d, model_ans=None):
     """-> (failures, run)"""
     from .. import aflat
     from transitions.extensions.asyncio import AsyncMachine
     r = aflat.Run7(d, AsyncMachine, True).run()
     case = {'stream': 'async-monitor', 'desc': aflat.to_json(d), 'qmode': d.qmode}
     out = []
+    # the Lean async engine (the object of C05A_queued_history / C05M_permodel_history) on the same case: C07's check
+    # ties it to AsyncMachine on ITS generator; here on the per-model scenarios (nested sessions, raises inside them)
+    if aflat.is_solo(d):
+        if model_ans is None:
+            model_ans = common.batch_driver([('aflat', aflat.enc_aflat(d))])[0]
+        m = flat.parse_model_answer(model_ans)
+        if m is not None:
+            items, models, st = m
+            if items != r.items or (models, st) != r.final():
+                k = next((i for i, (x, y) in enumerate(zip(items, r.items)) if x != y), min(len(items), len(r.items)))
+                out.append(Failure('correspondence', 'async_trace_eq', case, {
+                    'first_difference_at': k,
+                    'model': [common.show_item(i) for i in items[max(0, k - 4):k + 3]],
+                    'impl': [common.show_item(i) for i in r.items[max(0, k - 4):k + 3]]}))
+    # neither the engine nor a scripted callback raises anything but MachineError / AttributeError / ValueError /
+    # the two scripted kinds: an escaping exception of another kind comes from the queue handling itself
+    odd = [common.show_item(i) for i in r.items if i[0] == 'raised' and i[2] in (5, 6)]
+    if odd:
+        out.append(Failure('monitor', 'unexpected-exception-from-queue-handling', case,
+                           {'items': odd[:3], 'impl_trace': [common.show_item(i) for i in r.items]},
+                           signature='C05.unexpected-exception'))
     if r.bad:
         out.append(Failure('monitor', 'async-arguments', case, {'bad': r.bad[:5]}, signature='C05.args'))
     kind = 'c05' if d.qmode == 1 else 'c05m'
@@ -218,9 +244,13 @@ def async_monitor_chunk(seed, idx, n):
     from .. import aflat
     rng = random.Random('C05/async-monitor/%d/%d' % (seed, idx))
     ex = Exploration()
-    for _ in range(n):
-        d = gen_async_monitor(rng)
-        fs, r = async_monitor_judge(d)
+    descs = [gen_async_monitor(rng) for _ in range(n)]
+    tied = [i for i, d in enumerate(descs) if aflat.is_solo(d)]
+    answers = dict(zip(tied, common.batch_driver([('aflat', aflat.enc_aflat(descs[i])) for i in tied])))
+    for i, d in enumerate(descs):
+        fs, r = async_monitor_judge(d, answers.get(i))
+        if answers.get(i) == 'oof':
+            ex.oof += 1
         ex.evaluations += 1
         ex.traces_validated += 1
         if nontrivial(d, r):
@@ -258,7 +288,9 @@ class C05(flatcheck.FlatCheck):
                 # async engine, queued=True (lean/Props/C05A.lean)
                 'TM.C05A_top_trigger', 'TM.C05A_queued_history', 'TM.C05A_queued_history_obs',
                 'TM.C05A_queued_history_partial',
-                'TM.C05_idle_filter', 'TM.C05_idle_obsC07')
+                'TM.C05_idle_filter', 'TM.C05_idle_obsC07',
+                # async engine, queued='model' (lean/Props/C05M.lean)
+                'TM.C05M_top_trigger', 'TM.C05M_permodel_history')
     streams = (
         flatcheck.Stream('queued', knobs_q, monitor=monitor, prepare=add_marker, nontrivial=nontrivial,
                          quick=(16, 300), thorough=(64, 2000)),
@@ -406,7 +438,7 @@ class C05(flatcheck.FlatCheck):
 
     def leanchecker(self):
         import subprocess
-        mods = ['Props.C05', 'Props.C05N', 'Props.C05A']
+        mods = ['Props.C05', 'Props.C05N', 'Props.C05A', 'Props.C05M']
         p = subprocess.run(['lake', 'env', 'leanchecker'] + mods, cwd=common.LEAN, stdout=subprocess.PIPE,
                            stderr=subprocess.STDOUT, text=True)
         if p.returncode != 0:
